@@ -40,7 +40,7 @@ def generate(ctx):
                "trainable_feedback": True, "transforms": False, "capture": False,
                "trainer": trainer, "signs": rng.randrange(4), "trace_mode": rng.choice(["cumulative", "nearest"]),
                "delayed": bool(delay) and rng.random() < 0.5, "inplace": rng.random() < 0.5,
-               "reducer": rng.choice(REDUCERS), "reducer_duration": rng.choice([0.0, 3.0, 2.5, 1.0]), "classifier": target == "clone" or rng.random() < 0.5,
+               "reducer": rng.choice(REDUCERS), "reducer_duration": rng.choice([0.0, 3.0, 2.5, 1.0]), "classifier": target == "clone" or rng.random() < 0.5, "vmon": ["ca", "ema", None][(i // 9) % 3],
                "target": target, "reducer_clear_at": rng.choice([None, 2, 4])}
 
 
@@ -78,6 +78,12 @@ class System:
         elif r == "passthrough":
             self.reducer = observe.PassthroughReducer(dt, duration=dur, inplace=desc["inplace"])
         self.first_out = sorted(self.parts.neurons)[0]
+        # a user-attached monitor that observes a persistent state tensor directly (default single-slot, out-of-place record)
+        self.vmon = None
+        if desc.get("vmon"):
+            red = observe.CAReducer(dt) if desc["vmon"] == "ca" else observe.EMAReducer(dt, 0.3)
+            self.vmon = observe.StateMonitor(red, "voltage", self.parts.neurons[self.first_out])
+            self.vmon.register()
         self.classifier = None
         if desc["classifier"]:
             self.classifier = learn.MaxRateClassifier(tuple(self.parts.neurons[self.first_out].shape), 3, decay=0.1)
@@ -108,6 +114,8 @@ class System:
             m["reducer"] = self.reducer
         if self.classifier is not None:
             m["classifier"] = self.classifier
+        if self.vmon is not None:
+            m["voltage_monitor"] = self.vmon
         return m
 
     def checkpoint(self):
@@ -162,7 +170,7 @@ def run_case(ctx, desc):
         ctx.count("checkpoint_positions_checked")
         try:
             # RecurrentSerial creates its feedback-spike buffer on the first step, like the lazily shaped recorders
-            lazy = desc["trainer"] != "none" or desc["reducer"] != "none" or desc["kind"] == "recurrent"
+            lazy = desc["trainer"] != "none" or desc["reducer"] != "none" or desc["kind"] == "recurrent" or bool(desc.get("vmon"))
             if k == 0 and lazy:
                 # a never-run source has unshaped lazily-initialised recorders: nothing to transfer yet
                 ctx.count("k0_with_lazy_recorders_skipped")
